@@ -835,6 +835,71 @@ def variants(case):
     return out
 
 
+def nested_open_types(ctx):
+    """Open types two levels deep (CMS style): the type a governing value maps to is itself a record with an ANY DEFINED BY
+    member (bare, EXPLICIT-tagged, or SET OF / SEQUENCE OF ANY).  With resolution on, every mode of every codec returns the
+    fully typed tree - the innermost value included; with resolution off, the outer member holds the complete inner
+    encoding.  Checked on the implementation only (the model covers one level)."""
+    from pyasn1.type import tag as _tag
+    leafs = {1: (univ.Integer(), univ.Integer(-300)), 2: (univ.OctetString(), univ.OctetString(b'leaf')),
+             3: (univ.Sequence(componentType=namedtype.NamedTypes(namedtype.NamedType('n', univ.Null()), namedtype.NamedType('i', univ.Integer()))), None)}
+    v3 = leafs[3][0].clone(); v3['n'] = ''; v3['i'] = 7
+    leafs[3] = (leafs[3][0], v3)
+    def mk_inner(member, base_cls):
+        return base_cls(componentType=namedtype.NamedTypes(
+            namedtype.NamedType('k', univ.Integer()),
+            namedtype.NamedType('v', member, openType=opentype.OpenType('k', dict((k, t) for k, (t, _) in leafs.items())))))
+    members = [('ANY', univ.Any(), False), ('[2] EXPLICIT ANY', univ.Any().subtype(explicitTag=_tag.Tag(128, 32, 2)), False),
+               ('SET OF ANY', univ.SetOf(componentType=univ.Any()), True), ('SEQUENCE OF ANY', univ.SequenceOf(componentType=univ.Any()), True)]
+    der = I.ENC['DER']
+    for inner_cls in (univ.Sequence, univ.Set):
+        for mname, member, is_list in members:
+            inner_spec = mk_inner(member, inner_cls)
+            for outer_cls in (univ.Sequence, univ.Set):
+                for oname, omember in (('ANY', univ.Any()), ('[0] EXPLICIT ANY', univ.Any().subtype(explicitTag=_tag.Tag(128, 32, 0)))):
+                    outer_spec = outer_cls(componentType=namedtype.NamedTypes(
+                        namedtype.NamedType('id', univ.ObjectIdentifier()),
+                        namedtype.NamedType('content', omember, openType=opentype.OpenType('id', {univ.ObjectIdentifier('1.2.3'): inner_spec}))))
+                    for k, (lt, lv) in leafs.items():
+                        if inner_cls is univ.Set and mname == 'ANY' and k == 1:
+                            continue        # a bare ANY holding an INTEGER beside the INTEGER member of a SET: ambiguous by construction
+                        iv = inner_spec.clone(); iv['k'] = k
+                        leaf_der = der.encode(lv)
+                        if is_list:
+                            iv['v'].extend([univ.Any(leaf_der), univ.Any(leaf_der)])
+                        else:
+                            iv['v'] = member.clone(leaf_der)
+                        for cname, defm in MODES:
+                            kw = mode_opts(cname, defm)
+                            inner_enc = I.run_encode(cname, iv, **kw)
+                            if inner_enc[0] != 'ok':
+                                continue
+                            ov = outer_spec.clone(); ov['id'] = '1.2.3'; ov['content'] = omember.clone(inner_enc[1])
+                            e = I.run_encode(cname, ov, **kw)
+                            if e[0] != 'ok':
+                                continue
+                            desc = '%s { id OID, content %s } -> %s { k INTEGER, v %s } -> leaf %d' % (outer_cls.__name__, oname, inner_cls.__name__, mname, k)
+                            m = {'nested': desc, 'codec': cname, 'defMode': defm, 'bytes': e[1].hex()}
+                            ctx.case(('nested-open', desc, cname, defm), True)
+                            ctx.stats['nested open types:%s%s' % (cname, '' if defm is None else ('-def' if defm else '-indef'))] += 1
+                            d = I.run_decode(cname, e[1], asn1Spec=outer_spec, decodeOpenTypes=True)
+                            if d[0] != 'ok' or d[2]:
+                                ctx.prop_fail('nested open types, resolution on: decoding raised %s' % (d[1] if d[0] != 'ok' else 'nothing but left octets'), m); continue
+                            mid = d[1]['content']
+                            if not isinstance(mid, inner_cls) or isinstance(mid, univ.Any):
+                                ctx.prop_fail('nested open types, resolution on: the outer member is %s, not the mapped record' % type(mid).__name__, m); continue
+                            vals = list(mid['v']) if is_list else [mid['v']]
+                            bad = [x for x in vals if type(x) is not type(lt) or isinstance(x, univ.Any)]
+                            if bad or len(vals) != (2 if is_list else 1):
+                                ctx.prop_fail('nested open types, resolution on: the inner member holds %s where the map of the inner record says %s' % (
+                                    ', '.join(type(x).__name__ for x in vals), type(lt).__name__), m); continue
+                            if any(der.encode(x) != leaf_der for x in vals):
+                                ctx.prop_fail('nested open types, resolution on: the innermost value differs from the one encoded', m); continue
+                            raw = I.run_decode(cname, e[1], asn1Spec=outer_spec)
+                            if raw[0] != 'ok' or not isinstance(raw[1]['content'], univ.Any) or bytes(raw[1]['content']) != inner_enc[1]:
+                                ctx.prop_fail('nested open types, resolution off: the member does not hold the complete inner encoding', m)
+
+
 def run(ctx):
     ctx.rule = ('open records: SEQUENCE/SET with a governing INTEGER or OID member (sometimes tagged; mandatory, DEFAULT with the value equal '
                 'to the default - unset or set, never on the wire - or different from it, or OPTIONAL present/left out), 0-2 tagged siblings (some OPTIONAL), and '
@@ -844,7 +909,7 @@ def run(ctx):
                 'entries replaced, added, removed; writes after the definition or between encoding and decoding; 1 or 2 OpenType objects over it), expectation from '
                 'its content at decode time; x {BER def, BER indef, CER, DER} '
                 'x decodeOpenTypes {off,on} x openTypes {absent,present}; plus a fixed grid of targeted cases (every tagging x outer x list kind x '
-                'inner kind incl. the F01 and F50 classes); non-trivial = resolution on and value mapped, or inner value constructed/tagged')
+                'inner kind incl. the F01 and F50 classes); open types two levels deep (the mapped type is itself a record with an ANY DEFINED BY / SET OF / SEQUENCE OF ANY member) in every mode, typed down to the innermost value; non-trivial = resolution on and value mapped, or inner value constructed/tagged')
     search_only = getattr(ctx, 'search_only', False)
     g = gen.Gen(ctx.rng, depth=2, max_fields=3)
     cases = targeted() if ctx.scale == 1 else []
@@ -916,6 +981,7 @@ def run(ctx):
                 exprs.append(model_expr_group(case, cname, defm, runs))
                 meta.append({'case': case, 'codec': cname, 'defMode': defm, 'variants': [(a, b) for a, b, _ in runs],
                              'class': fid})
+    nested_open_types(ctx)
     if cases:
         c0 = cases[0]
         ctx.sample({'outer': outer_desc(c0), 'map': c0['map'], 'gov': c0['gov'], 'inner': c0['inner']})
